@@ -778,7 +778,7 @@ class FakeES:
 
 PARAM_VALUES = {
     "index": "idx", "body": {}, "name": "n", "source-index": "src", "target-index": "tgt", "target-body": {"settings": {}}, "indices": [["idx", {}]],
-    "templates": [["t", {}]], "repository": "repo", "snapshot": "snap", "pipeline": "p", "id": "i", "transform-id": "t", "policy-name": "pol",
+    "templates": [["t", {"template": {}, "index_patterns": ["x*"]}]], "repository": "repo", "snapshot": "snap", "pipeline": "p", "id": "i", "transform-id": "t", "policy-name": "pol",
     "datafeed-id": "d", "job-id": "j", "data-streams": ["ds"], "path": "/_cluster/health", "query": "from idx", "duration": 0, "fixed-interval": "1h",
 }
 
@@ -832,10 +832,80 @@ def base_params(op, registered):
     return copy.deepcopy(params)
 
 
+def _L(x):
+    """nested plain data -> Lenient documents"""
+    if isinstance(x, dict):
+        return Lenient({k: _L(v) for k, v in x.items()})
+    if isinstance(x, list):
+        return [_L(v) for v in x]
+    return x
+
+
+_SHARD = {"start_time_in_millis": 1000, "stop_time_in_millis": 3000, "index": {"size": {"recovered_in_bytes": 2048}}}
+_SNAP_STATS = {"total": {"size_in_bytes": 10, "file_count": 1}, "start_time_in_millis": 1, "time_in_millis": 2000}
+_TRANSFORM_STATS = {"documents_processed": 10, "search_time_in_ms": 1, "processing_time_in_ms": 1, "index_time_in_ms": 1}
+# what a small cluster answers per API: (healthy document, unhealthy / not-yet-done document); polling runners finish on the healthy one
+PATH_DOCS = {
+    "cluster.health": ({"status": "green", "relocating_shards": 0, "timed_out": False, "number_of_nodes": 1},
+                       {"status": "red", "relocating_shards": 3, "timed_out": True, "number_of_nodes": 1}),
+    "indices.recovery": ({"idx": {"shards": [dict(_SHARD, stage="DONE")]}}, {"idx": {"shards": [dict(_SHARD, stage="INDEX")]}}),
+    "snapshot.get": ({"snapshots": [], "total": 0}, {"snapshots": [{"snapshot": "snap"}], "total": 1}),
+    "snapshot.status": ({"snapshots": [{"state": "SUCCESS", "stats": _SNAP_STATS}]}, {"snapshots": [{"state": "IN_PROGRESS", "stats": _SNAP_STATS}]}),
+    "transform.get_transform_stats": ({"transforms": [{"state": "stopped", "stats": _TRANSFORM_STATS}]}, {"transforms": [{"state": "indexing", "stats": _TRANSFORM_STATS}]}),
+    "info": ({"version": {"number": "8.6.1", "build_flavor": "default"}}, {"version": {"number": "8.6.1", "build_flavor": "default"}}),
+    "nodes.info": ({"nodes": {"n1": {"name": "n1", "roles": ["data", "master"]}}}, {"nodes": {"n1": {"name": "n1", "roles": ["master"]}}}),
+    "indices.get": ({"src-1": {"settings": {}}, "src-2": {"settings": {}}}, {"src-1": {"settings": {}}}),
+    "tasks.list": ({"nodes": {}}, {"nodes": {"n1": {"tasks": {}}}}),
+    "indices.exists": ({"exists": True}, {"exists": True}),
+}
+DEFAULT_DOCS = ({"acknowledged": True, "took": 1}, {"acknowledged": False, "errors": True, "status": "red", "timed_out": True, "is_running": True, "is_partial": True})
+
+
+def path_doc(path, healthy=True):
+    h, u = PATH_DOCS.get(path, DEFAULT_DOCS)
+    return h if healthy else u
+
+
 def _canned(path):
-    if path == "indices.get":
-        return Lenient({"src-1": Lenient(), "src-2": Lenient()})
-    return Lenient()
+    return _L(path_doc(path, True))
+
+
+API_STATUSES = [400, 403, 404, 408, 409, 429, 500, 503]
+API_BODYKINDS = ["none", "errdoc", "healthy", "unhealthy", "text"]
+
+
+def make_api_answer(status, bodykind, path, idx):
+    """an ApiError as elasticsearch-py raises it for this status, with or without a meaningful body (e.g. a 408 of the
+    health API still carries a regular health document)"""
+    import copy
+    import elasticsearch
+
+    cls = {400: elasticsearch.BadRequestError, 401: elasticsearch.AuthenticationException, 403: elasticsearch.AuthorizationException,
+           404: elasticsearch.NotFoundError, 409: elasticsearch.ConflictError}.get(status, elasticsearch.ApiError)
+    marker = f"answer_{status}_{idx}"
+    body = {
+        "none": None,
+        "errdoc": {"error": {"type": marker, "reason": "r", "root_cause": [{"type": marker, "reason": "r"}]}, "status": status},
+        "healthy": copy.deepcopy(path_doc(path, True)),
+        "unhealthy": copy.deepcopy(path_doc(path, False)),
+        "text": f"{status} {marker}",
+    }[bodykind]
+    return cls(marker, _meta(status, idx), body)
+
+
+def answer_for(spec, path, idx):
+    """-> (document, None) or (None, exception) for one client call"""
+    if spec == "h":
+        return _L(path_doc(path, True)), None
+    if spec == "u":
+        return _L(path_doc(path, False)), None
+    if spec == "e":
+        return Lenient(), None
+    if spec[0] == "api":
+        return None, make_api_answer(spec[1], spec[2], path, idx)
+    if spec[0] == "exc":
+        return None, make_outcome(spec[1], spec[2], idx)[1]
+    raise HarnessError("unknown answer spec " + str(spec))
 
 
 def classify_outcome(is_value, obj):
@@ -936,6 +1006,59 @@ def gen_task_invocations(ctx):
             yield {"op": op, "p": pw, "shared": rng.random() < 0.7, "invs": invs}
 
 
+def gen_cluster_answers(ctx):
+    """every registered operation type x a fake cluster whose answer to the n-th client call of an attempt is drawn from
+    {healthy document, unhealthy / not-yet-done document, empty, ApiError 400/403/404/408/409/429/500/503 with no / error / healthy /
+    unhealthy / text body, ConnectionTimeout, ConnectionError, socket.timeout, other transport error}; the same answer script is
+    repeated for more attempts than the budget allows, under several retry flag combinations"""
+    from esrally import track
+
+    ops = sorted(m.to_hyphenated_string() for m in track.OperationType)
+    rng = ctx.rng
+    mine = [op for i, op in enumerate(ops) if i % ctx.nshards == ctx.shard]
+    flag_sets = [{"retries": 2}, {"retries": 2, "on_timeout": False, "on_error": True, "wait": ["f", "0.25"]}, {"retries": 1, "on_error": True, "wait": ["i", 2]}]
+    quick = ctx.tier != "thorough"
+    for oi, op in enumerate(mine):
+        n = 0
+        specs = [["api", st, bk] for st in API_STATUSES for bk in API_BODYKINDS] + ["u", "e", ["exc", "connTimeout", 0], ["exc", "connError", 1],
+                                                                                   ["exc", "sockTimeout", 0], ["exc", "transportOther", 2]]
+        for si, spec in enumerate(specs):
+            for pos in (0, 1, 2):
+                # quick tier: every (spec, position) once, flag set rotated; thorough: all flag sets
+                for fi, pw in enumerate(flag_sets):
+                    if quick and (si + pos + oi) % len(flag_sets) != fi:
+                        continue
+                    answers = ["h"] * pos + [spec]
+                    plan = [["answers", answers]] * (pw["retries"] + 3)
+                    yield {"op": op, "p": pw, "shared": (si + pos) % 2 == 0, "invs": [plan, [["ok"]]]}
+                    n += 1
+        for _ in range(max(0, ctx.budget // max(1, len(mine)) - n)):
+            pw = gen_params(rng, 3)
+            pw["ctor"] = None
+            if pw.get("retries") is not None and pw["retries"] > 4:
+                pw["retries"] = rng.choice([1, 2, 3])
+            if rng.random() < 0.85:
+                pw["until"] = None
+            invs = []
+            for _i in range(rng.choice([1, 2, 3])):
+                plan = []
+                for _j in range(rng.choice([1, 2, 3, 5, 7])):
+                    answers = []
+                    for _c in range(rng.choice([1, 1, 2, 3, 4, 6])):
+                        r = rng.random()
+                        if r < 0.4:
+                            answers.append("h")
+                        elif r < 0.55:
+                            answers.append(rng.choice(["u", "u", "e"]))
+                        elif r < 0.85:
+                            answers.append(["api", rng.choice(API_STATUSES), rng.choice(API_BODYKINDS)])
+                        else:
+                            answers.append(["exc", rng.choice(["connTimeout", "connError", "sockTimeout", "transportOther"]), rng.randrange(NVARIANTS)])
+                    plan.append(["answers", answers])
+                invs.append(plan)
+            yield {"op": op, "p": pw, "shared": rng.random() < 0.5, "invs": invs}
+
+
 def run_task_invocations(ctx, case):
     import asyncio
     import copy
@@ -961,16 +1084,27 @@ def run_task_invocations(ctx, case):
     task_view = retry_view(pristine)
     # the driver asks the task's parameter source before every invocation; the default one hands out the same dict
     source = track_params.ParamSource(None, task_params)
-    st = {"attempts": None, "trace": None, "depth": 0, "es_calls": 0, "fault": None, "plan": None, "inner_sleeps": 0}
+    st = {"attempts": None, "trace": None, "depth": 0, "es_calls": 0, "fault": None, "plan": None, "inner_sleeps": 0, "client": []}
 
     def es_plan(path, a, kw):
         st["es_calls"] += 1
         if st["es_calls"] > ES_CALL_CAP:
             raise Abort("inner")
         f = st["fault"]
-        if f is not None and st["es_calls"] == f[1]:
-            raise make_outcome(f[0], f[2], len(st["attempts"]))[1]
-        return _canned(path)
+        exc = None
+        doc = None
+        if f is not None and f[0] == "answers":
+            spec = f[1][st["es_calls"] - 1] if st["es_calls"] - 1 < len(f[1]) else "h"
+            doc, exc = answer_for(spec, path, len(st["attempts"]))
+        elif f is not None and st["es_calls"] == f[1]:
+            exc = make_outcome(f[0], f[2], len(st["attempts"]))[1]
+        else:
+            doc = _canned(path)
+        if st["depth"] > 0:
+            st["client"].append((path, exc))
+        if exc is not None:
+            raise exc
+        return doc
 
     es = {"default": FakeES(es_plan)}
     orig_call = cls.__call__
@@ -983,6 +1117,7 @@ def run_task_invocations(ctx, case):
         beh = st["plan"][idx] if idx < len(st["plan"]) else ["ok"]
         st["fault"] = beh if beh[0] not in ("ok", "fail") else None
         st["es_calls"] = 0
+        st["client"] = []
         v0 = retry_view(p)
         st["depth"] += 1
         try:
@@ -996,7 +1131,8 @@ def run_task_invocations(ctx, case):
         finally:
             st["depth"] -= 1
             st["fault"] = None
-        st["attempts"].append({"k": classify_outcome(*out), "obj": out[1], "v0": v0, "v1": retry_view(p), "same_dict": p is st["handed"]})
+        st["attempts"].append({"k": classify_outcome(*out), "obj": out[1], "v0": v0, "v1": retry_view(p), "same_dict": p is st["handed"],
+                               "client": st["client"], "is_value": out[0], "plan": beh})
         if out[0]:
             return out[1]
         raise out[1]
@@ -1047,6 +1183,23 @@ def run_task_invocations(ctx, case):
                 ctx.fail("runner-mutates-retry-parameters",
                          f"after invocation {i + 1} of {op} the retry parameters of the task's params dict differ from what the task configured",
                          {k: str(v) for k, v in before.items()}, {k: str(v) for k, v in after.items()})
+            # direct oracle on what the cluster answered inside each attempt (documented retryable operations): the outcome classes
+            # of the property are Elasticsearch's answers, so the runner body must hand a client error on as it is
+            if row["doc_retryable"]:
+                for ai, a in enumerate(atts):
+                    cl = a["client"]
+                    for ci, (pth, ex) in enumerate(cl):
+                        if ex is not None and classify_outcome(False, ex) in ("apiOther", "transportOther", "otherExc") and any(p2 == pth for p2, _ in cl[ci + 1:]):
+                            ctx.fail("non-retryable-error-retried-inside-attempt",
+                                     f"{op}: the request [{pth}] was answered with a non-retryable error ({type(ex).__name__} {getattr(ex, 'status_code', '')}) and was issued again inside the same attempt instead of propagating at once",
+                                     "error propagates immediately", {"attempt": ai + 1, "client calls": [[p2, type(e2).__name__ if e2 else "doc"] for p2, e2 in cl][:12]})
+                            break
+                    if cl and cl[-1][1] is not None and not (a["is_value"] is False and a["obj"] is cl[-1][1]) and a["plan"][0] != "fail":
+                        ex = cl[-1][1]
+                        ctx.fail("error-answer-not-propagated",
+                                 f"{op}: the last request of the attempt [{cl[-1][0]}] was answered with {type(ex).__name__} {getattr(ex, 'status_code', '')} "
+                                 f"(class {classify_outcome(False, ex)}) but the attempt ended as {a['k']} instead of raising that error",
+                                 classify_outcome(False, ex), {"attempt": ai + 1, "attempt outcome": a["k"], "value": str(a["obj"])[:160]})
             w = []
             for a in atts:
                 try:
@@ -1095,4 +1248,5 @@ STREAMS = [
     Stream("all_short_scripts", gen_exhaustive, run_retry, quick=24442, thorough=1, shards=16, exhaustive_thorough=True),
     Stream("registered_ops", gen_registered, run_registered, quick=4000, thorough=60000, shards=8),
     Stream("task_invocations", gen_task_invocations, run_task_invocations, quick=4000, thorough=60000, shards=16),
+    Stream("cluster_answers", gen_cluster_answers, run_task_invocations, quick=12000, thorough=120000, shards=16),
 ]
